@@ -7,8 +7,12 @@ Read from the code on every run
   * for each such class and every pydantic model reachable from its fields: `model_fields` (annotation,
     default / default_factory, constraints) and the parts of `model_config` and of the decorators that would
     change validation or serialization.
-Anything the Lean model `OPM.Proto` does not cover is emitted as `Ty.unsupported "..."`, which makes the
-table theorem `rt` fail (the proof half breaks -> failing-input search), never a silent default.
+Unmodelled *constructs* (validators, serializers, aliases, `exclude`, non-default `model_config`) are emitted as
+`Ty.unsupported "..."`, which makes the table theorem `rt` fail (the proof half breaks -> failing-input search).
+A field *type* the model does not cover (datetime, bytes, Decimal, frozenset, a union with a tuple/model/enum member,
+an unknown constraint ...) is emitted as `Ty.opaqueTy "..."`: no value of it is `wellTyped` in the model, so the
+theorems simply do not speak about messages that contain such a field; `opaque_fields()` reports them and
+props/C26.py checks those classes with the real code only (the field at its default), with a note in the evidence.
 """
 from __future__ import annotations
 
@@ -79,7 +83,7 @@ def val_term(v) -> str:
         t = ".lnil"
         for x in reversed(v):
             t = f"(.lcons {val_term(x)} {t})"
-        return t
+        return f"(.tup {t})" if isinstance(v, tuple) else t
     if isinstance(v, (set, frozenset)):
         if not all(isinstance(x, str) for x in v):
             raise Unsupported("set of non-str")
@@ -114,6 +118,33 @@ class Collector:
         self.models: dict[type, str] = {}      # class -> lean identifier stem
         self.defs: list[str] = []              # lean definitions in dependency order
         self.in_progress: set[type] = set()
+        self.opaque: dict[type, dict[str, str]] = {}     # model class -> {field name: why}
+        self._why: list[str] = []                        # opaque reasons met while translating the current field
+
+    def _opaque(self, why: str) -> str:
+        self._why.append(why)
+        return f"(.opaqueTy {lean_str(why[:160])})"
+
+    def exact_ok(self, ann, metadata=()) -> bool:
+        """Python mirror of OPM.Proto.exactOk: what may stand inside a (smart) union in the model."""
+        import annotated_types as at
+        origin, args = typing.get_origin(ann), typing.get_args(ann)
+        if origin is typing.Annotated:
+            return self.exact_ok(args[0], tuple(args[1:]) + tuple(metadata))
+        if metadata:
+            return ann is int and len(metadata) == 1 and isinstance(metadata[0], at.Ge) and metadata[0].ge == 0
+        if ann in (int, str, bool, float, type(None), None):
+            return True
+        if origin is typing.Literal:
+            return all(isinstance(a, str) for a in args)
+        if origin in (typing.Union, types.UnionType):
+            return all(self.exact_ok(a) for a in args)
+        if origin is list and len(args) == 1:
+            return self.exact_ok(args[0])
+        if origin is dict and len(args) == 2:
+            kinds = self.key_kinds(args[0])
+            return kinds is not None and ".str" in kinds and self.exact_ok(args[1])
+        return False
 
     # -- types ---------------------------------------------------------------------------
     def ty(self, ann, metadata=()) -> str:
@@ -126,7 +157,7 @@ class Collector:
         if metadata:
             if ann is int and len(metadata) == 1 and isinstance(metadata[0], at.Ge) and metadata[0].ge == 0:
                 return ".nnint"
-            return f"(.unsupported {lean_str('constraint ' + repr(metadata) + ' on ' + repr(ann))})"
+            return self._opaque('constraint ' + repr(metadata) + ' on ' + repr(ann))
         if ann is int:
             return ".int"
         if ann is str:
@@ -140,8 +171,10 @@ class Collector:
         if origin is typing.Literal:
             if all(isinstance(a, str) for a in args):
                 return "(.lit [" + ", ".join(lean_str(a) for a in args) + "])"
-            return f"(.unsupported {lean_str('literal ' + repr(ann))})"
+            return self._opaque('literal ' + repr(ann))
         if origin in (typing.Union, types.UnionType):
+            if not all(self.exact_ok(a) for a in args):
+                return self._opaque('union with a member that pydantic cannot match exactly from JSON: ' + repr(ann))
             terms = [self.ty(a) for a in args]
             t = terms[-1]
             for x in reversed(terms[:-1]):
@@ -151,18 +184,29 @@ class Collector:
             return f"(.list {self.ty(args[0])})"
         if origin in (set, frozenset) and args == (str,) and origin is set:
             return ".setStr"
+        if origin is tuple and args:
+            if len(args) == 2 and args[1] is Ellipsis:
+                return f"(.tupleVar {self.ty(args[0])})"
+            if Ellipsis not in args and args != ((),):
+                t = ".tnil"
+                for a in reversed(args):
+                    t = f"(.tcons {self.ty(a)} {t})"
+                return f"(.tuple {t})"
         if origin is dict and len(args) == 2:
             kinds = self.key_kinds(args[0])
             if kinds is None:
-                return f"(.unsupported {lean_str('dict key type ' + repr(args[0]))})"
+                return self._opaque('dict key type ' + repr(args[0]))
             return f"(.dict [{', '.join(kinds)}] {self.ty(args[1])})"
         if inspect.isclass(ann) and issubclass(ann, enum.Enum):
             if issubclass(ann, str) and all(isinstance(m.value, str) for m in ann):
                 return "(.enm [" + ", ".join(lean_str(m.value) for m in ann) + "])"
-            return f"(.unsupported {lean_str('enum ' + ann.__qualname__)})"
+            return self._opaque('enum ' + ann.__qualname__)
         if inspect.isclass(ann) and issubclass(ann, BaseModel):
-            return "M_" + self.model(ann)
-        return f"(.unsupported {lean_str(repr(ann))})"
+            stem = self.model(ann)
+            if ann in self.opaque:
+                self._why.append(f"nested model {ann.__qualname__} has fields of unmodelled type")
+            return "M_" + stem
+        return self._opaque(repr(ann))
 
     def key_kinds(self, ann) -> list[str] | None:
         origin = typing.get_origin(ann)
@@ -204,7 +248,11 @@ class Collector:
         fields = ".fnil"
         probs = self.model_problems(cls)
         for name, f in reversed(list(cls.model_fields.items())):
+            saved, self._why = self._why, []
             t = self.ty(f.annotation, tuple(f.metadata))
+            if self._why:
+                self.opaque.setdefault(cls, {})[name] = "; ".join(self._why)
+            self._why = saved
             if f.alias is not None or f.validation_alias is not None or f.serialization_alias is not None:
                 t = f"(.unsupported {lean_str('alias on ' + name)})"
             if f.exclude:
@@ -257,6 +305,15 @@ def collect():
                 if any(p.kind is p.VAR_KEYWORD for p in sig.parameters.values()):
                     entries.append((ns.__name__, attr, None, "callable taking **kwargs"))
     return list(S._message_namespace_names), entries, col
+
+
+def opaque_fields() -> dict[type, dict[str, str]]:
+    """model class (message or nested) -> {field: why the model does not cover its type}"""
+    _, entries, col = collect()
+    for _, _, cls, _ in entries:
+        if cls is not None:
+            col.model(cls)
+    return col.opaque
 
 
 def message_classes() -> list[type]:
